@@ -142,6 +142,10 @@ pub enum Fault {
     /// the backend sends an interim response (103, or 100 to a complete request) and then
     /// stays silent
     InterimStall { code: u16 },
+    /// the backend writes the first `pre` bytes of its answer at once and the rest only after
+    /// `after_ms` (later than back_timeout), on the connection it got the request on, and keeps
+    /// serving that connection
+    Late { pre: usize, after_ms: u32 },
     /// HTTP/1.1 client never finishes: 0 = stops inside the header block, 1 = head without the
     /// final CRLF, 2 = complete head, half of the declared body
     ClientStall { part: u8 },
@@ -161,6 +165,7 @@ impl Fault {
             Fault::Garbage { v } => format!("garb.{v}"),
             Fault::IdleClose { delay_ms } => format!("idle.{delay_ms}"),
             Fault::InterimStall { code } => format!("interim.{code}"),
+            Fault::Late { pre, after_ms } => format!("late.{pre}.{after_ms}"),
             Fault::H2cRst { code, stage } => format!("hrst.{code}.{stage}"),
             Fault::H2cGoaway { code, stage } => format!("hgoaway.{code}.{stage}"),
             Fault::H2cClose { stage } => format!("hclose.{stage}"),
@@ -178,6 +183,7 @@ impl Fault {
             "garb" => Fault::Garbage { v: n(1) as u8 },
             "idle" => Fault::IdleClose { delay_ms: n(1) as u32 },
             "interim" => Fault::InterimStall { code: n(1) as u16 },
+            "late" => Fault::Late { pre: n(1) as usize, after_ms: n(2) as u32 },
             "hrst" => Fault::H2cRst { code: n(1) as u32, stage: n(2) as u8 },
             "hgoaway" => Fault::H2cGoaway { code: n(1) as u32, stage: n(2) as u8 },
             "hclose" => Fault::H2cClose { stage: n(1) as u8 },
@@ -372,6 +378,7 @@ impl ReqSpec {
             Fault::StickyDead { .. } => "sticky_backend_refusing_sibling_up".into(),
             Fault::StickyLive { .. } => "sticky_backend_up".into(),
             Fault::InterimStall { .. } => "backend_silent_after_interim".into(),
+            Fault::Late { .. } => "backend_answers_after_timeout".into(),
             Fault::ClientStall { part: 2 } => "client_stalls_mid_body".into(),
             Fault::ClientStall { .. } => "client_never_finishes_head".into(),
             Fault::H2cRst { .. } => format!("h2c_rst_stream/{}", prog(self.progress())),
@@ -385,7 +392,7 @@ impl ReqSpec {
     /// the configured timeout that governs this cause (ms); 0 = the answer needs no timer
     pub fn governing_ms(&self) -> u64 {
         match &self.fault {
-            Fault::Stall { .. } | Fault::H2cStall { .. } | Fault::InterimStall { .. } => BACK_TIMEOUT_S as u64 * 1000,
+            Fault::Stall { .. } | Fault::H2cStall { .. } | Fault::InterimStall { .. } | Fault::Late { .. } => BACK_TIMEOUT_S as u64 * 1000,
             // up to CONN_RETRIES refused connects before the live backend is tried
             Fault::StickyDead { .. } => CONNECT_TIMEOUT_S as u64 * 1000 * CONNECT_ATTEMPTS,
             Fault::ClientStall { .. } => FRONT_TIMEOUT_S.max(REQUEST_TIMEOUT_S).max(BACK_TIMEOUT_S) as u64 * 1000,
@@ -436,6 +443,9 @@ pub struct Scenario {
     pub tag: &'static str,
     /// use the listeners whose front timeout (9 s) is longer than the back timeout (2 s)
     pub long_front: bool,
+    /// use the listeners whose 502/503/504 answer templates keep the client connection alive
+    /// (no `Connection: close`; front timeout 9 s, back timeout 2 s)
+    pub ka_answers: bool,
 }
 
 impl Scenario {
@@ -453,7 +463,7 @@ impl Scenario {
         serde_json::json!({
             "scenario": self.idx, "group": self.tag, "front": self.front.name(), "multiplexing": self.mux_name(),
             "faulty_position": self.faulty,
-            "listener": if self.long_front { "front_timeout 9 s, back_timeout 2 s" } else { "front_timeout 2 s, back_timeout 2 s" },
+            "listener": if self.ka_answers { "custom 502/503/504 templates without Connection: close, front_timeout 9 s, back_timeout 2 s" } else if self.long_front { "front_timeout 9 s, back_timeout 2 s" } else { "front_timeout 2 s, back_timeout 2 s" },
             "requests": self.reqs.iter().map(|r| r.describe()).collect::<Vec<_>>(),
         })
     }
